@@ -780,9 +780,10 @@ func (w *World) applyBatch(op Op) (res ApplyResult) {
 	staged := map[string]*string{}
 	var order []string
 	var extra strings.Builder
+	quiet := op.Arg&2 != 0 // no Batch.Get between the staging calls
 	defer func() { res.Extra = extra.String() }()
 	err := w.guard(func() error {
-		b := w.DB.NewBatch(kv.BatchOptions{Sync: op.Arg == 1})
+		b := w.DB.NewBatch(kv.BatchOptions{Sync: op.Arg&1 == 1})
 		committed := false
 		defer func() {
 			if !committed && !w.Dead {
@@ -818,8 +819,35 @@ func (w *World) applyBatch(op Op) (res ApplyResult) {
 				staged[s.Key] = nil
 				order = append(order, s.Key)
 			}
+			if quiet {
+				continue
+			}
 			for _, k := range w.Keys {
-				v, err := b.Get([]byte(k))
+				var v []byte
+				var err error
+				if w.Adversarial {
+					// the key passed to Batch.Get travels through the caller's reused buffer as well, and the answer is
+					// judged on the spot: the staged operation of this batch, else the committed mapping
+					kb, _ := w.advArgs(k, nil)
+					v, err = b.Get(kb)
+					w.advDone(k, nil, "Batch.Get")
+					want, present := w.Model[k]
+					if sv, ok := staged[k]; ok {
+						present = sv != nil
+						if present {
+							want = *sv
+						}
+					}
+					if res.Clause == "" && errClass(err) != "panic" {
+						if present && (err != nil || string(v) != want) {
+							res.Clause, res.Detail = "batch-get-wrong", fmt.Sprintf("Batch.Get(%q) after staging call %d = %s/%s, expected %s", k, len(order), short(string(v)), errClass(err), short(want))
+						} else if !present && err == nil {
+							res.Clause, res.Detail = "batch-get-wrong", fmt.Sprintf("Batch.Get(%q) after staging call %d = %s, expected not found", k, len(order), short(string(v)))
+						}
+					}
+				} else {
+					v, err = b.Get([]byte(k))
+				}
 				extra.WriteString(fmt.Sprintf("%s=%s/%s ", k, short(string(v)), errClass(err)))
 			}
 			extra.WriteString("| ")
